@@ -102,8 +102,8 @@ def work_chunk(args):
             agg["stats"][k] = agg["stats"].get(k, 0) + v
         if res.get("nontrivial"):
             agg["nontrivial"] += 1
-            agg["nt_digests"].append(digest([scn.get("world"), scn.get("ops"), scn.get("cfg"), scn.get("schedule"),
-                                             scn.get("actors")])[:12])
+            agg["nt_digests"].append(digest(dict((k, v) for k, v in scn.items()
+                                                 if k not in ("run_seed", "index")))[:12])
             if len(agg["samples"]) < 1:
                 agg["samples"].append({"index": i, "run_seed": scn["run_seed"], "scenario": prop.sample_view(scn)})
         if res.get("sched"):
